@@ -452,6 +452,10 @@ class Origins:
             l, p = norm_place(op["place"])
             self._place(body, l, p + path, ctx, acc, seen)
         elif op["k"] == "const":
+            if "promoted" in op and op["promoted"] < len(body.promoted):
+                pb = body.promoted[op["promoted"]]
+                self._place(pb, 0, path, (), acc, seen)
+                return
             txt = op.get("str")
             if txt is None and "bytes" in op:
                 txt = "b:" + bytes(op["bytes"]).hex()
@@ -946,6 +950,11 @@ class Terms:
         if op is None:
             return ("none",)
         if op["k"] == "const":
+            if "promoted" in op and op["promoted"] < len(self.body.promoted):
+                pb = self.body.promoted[op["promoted"]]
+                rets = pb.return_blocks()
+                if rets:
+                    return Terms(self.p, pb).place(0, (), rets[0], "t", depth + 1)
             v = op.get("str")
             if v is None and "bytes" in op:
                 v = bytes(op["bytes"])
@@ -1083,13 +1092,21 @@ class Terms:
             if aw and aw[0].call is not None:
                 c = aw[0].call
                 at = tuple(self.operand(a, aw[0].call_bb, "t", depth) for a in c["args"])
-                return ("agg", "core::task::poll::Poll", "Ready", (("0", ("await", callee_of(c), at, aw[0].call_bb)),))
+                return ("agg", "core::task::poll::Poll", "Ready", (("0", ("await", self.call_name(c), at, aw[0].call_bb)),))
             return ("agg", "core::task::poll::Poll", "Ready", (("0", ("await_unknown", bb)),))
         for n in names:
             if n in PASS_THROUGH:
                 return self.operand(args[PASS_THROUGH[n]], bb, "t", depth)
         at = tuple(self.operand(a, bb, "t", depth) for a in args)
-        return ("call", callee_of(t), at, bb)
+        return ("call", self.call_name(t), at, bb)
+
+    def call_name(self, t):
+        """workspace callees by their resolved body path; everything else by the declared item
+        (trait methods of std keep their trait name: core::cmp::PartialEq::eq)"""
+        r = t.get("resolved")
+        if r and r in self.p.bodies:
+            return r
+        return t.get("callee") or r or "?"
 
     # `try` projections: (try x).Continue.0 == x.Ok.0
     def simplify(self, term):
@@ -1205,12 +1222,17 @@ def mandatory_edges(body, target, start=0):
             by_succ[s].append(lab)
         if len(by_succ) < 2:
             continue
+        explicit = [lab for lab, _ in edges if lab != "otherwise"]
         for s, labs in by_succ.items():
-            others = [(sb, s2) for s2 in by_succ if s2 != s]
-            # target unreachable if we may only leave sb through edges other than s?  i.e. edge to s is mandatory
+            # the edge to s is mandatory iff target is unreachable without it
             r = body.reachable(start, removed_edges=[(sb, s)])
             if target not in r:
-                out.append((sb, tuple(labs), s))
+                if "otherwise" in labs:
+                    # canonical negative form: every value except the explicit labels that go elsewhere
+                    lab = ("notin",) + tuple(sorted(x for x in explicit if x not in labs))
+                else:
+                    lab = ("in",) + tuple(sorted(labs))
+                out.append((sb, lab, s))
     return out
 
 
@@ -1227,4 +1249,99 @@ def conditions(program, body, target, terms=None, start=0):
 
 def cond_str(c):
     sb, labs, term = c
-    return "bb%d: %s in {%s}" % (sb, term_str(term), ",".join(labs))
+    return "bb%d: %s %s" % (sb, term_str(term), lab_str(labs))
+
+
+def lab_str(labs):
+    return ("∈{%s}" if labs[0] == "in" else "∉{%s}") % ",".join(labs[1:])
+
+
+def lab_holds(labs, value):
+    """does switch value (string) satisfy the edge label set?"""
+    return (value in labs[1:]) if labs[0] == "in" else (value not in labs[1:])
+
+
+def lab_true(labs):
+    """edge taken when a bool operand is true"""
+    return lab_holds(labs, "1") and not lab_holds(labs, "0")
+
+
+def lab_false(labs):
+    return lab_holds(labs, "0") and not lab_holds(labs, "1")
+
+
+
+def decision_paths(body, target, start=0, cap=400):
+    """Enumerate the distinct sets of switch decisions along acyclic paths start ->* target.
+    Each decision is (switch_bb, succ).  Poll loops are cut (a block is not revisited on a path).
+    Returns list of tuples of decisions in path order, or None if more than `cap` paths."""
+    can_reach = set()
+    preds = body.preds()
+    dq = deque([target])
+    can_reach.add(target)
+    while dq:
+        x = dq.popleft()
+        for pr in preds.get(x, []):
+            if pr not in can_reach and not body.blocks[pr]["cleanup"]:
+                can_reach.add(pr)
+                dq.append(pr)
+    results = set()
+    count = [0]
+
+    def dfs(b, onpath, decisions):
+        if count[0] > cap * 50:
+            return
+        if b == target:
+            results.add(tuple(decisions))
+            count[0] += 1
+            return
+        t = body.term(b)
+        edges = body.succ_edges(b)
+        succs = []
+        for lab, sc in edges:
+            if lab == "drop":
+                continue
+            if sc not in succs:
+                succs.append(sc)
+        is_switch = t is not None and t["k"] == "switch" and len(succs) > 1
+        for sc in succs:
+            if sc in onpath or sc not in can_reach:
+                continue
+            if is_switch:
+                decisions.append((b, sc))
+            onpath.add(sc)
+            dfs(sc, onpath, decisions)
+            onpath.discard(sc)
+            if is_switch:
+                decisions.pop()
+
+    import sys
+    old = sys.getrecursionlimit()
+    sys.setrecursionlimit(max(old, 10000))
+    try:
+        dfs(start, {start}, [])
+    finally:
+        sys.setrecursionlimit(old)
+    if len(results) > cap or count[0] > cap * 50:
+        return None
+    return sorted(results)
+
+
+def edge_label(body, sb, succ):
+    """canonical label ('in', ...) / ('notin', ...) of the switch edge sb -> succ"""
+    edges = body.succ_edges(sb)
+    explicit = [lab for lab, _ in edges if lab != "otherwise"]
+    labs = [lab for lab, sc in edges if sc == succ]
+    if "otherwise" in labs:
+        return ("notin",) + tuple(sorted(x for x in explicit if x not in labs))
+    return ("in",) + tuple(sorted(labs))
+
+
+def contradicting_edges(body, decisions):
+    """edges of the decided switches that were not taken"""
+    out = []
+    for sb, succ in decisions:
+        for sc in set(body.succs(sb)):
+            if sc != succ:
+                out.append((sb, sc))
+    return out
